@@ -133,6 +133,10 @@ pub fn collect<'tcx>(tcx: TyCtxt<'tcx>, root: &mut J) {
                     if matches!(ai.kind, ty::AssocKind::Type { .. }) {
                         let t = tcx.type_of(ai.def_id).skip_binder();
                         ij.put("ty", ty_j(tcx, t));
+                        let env = ty::TypingEnv::post_analysis(tcx, did);
+                        if let Ok(n) = tcx.try_normalize_erasing_regions(env, ty::Unnormalized::new_wip(t)) {
+                            ij.put("ty_norm", ty_j(tcx, n));
+                        }
                     }
                     if matches!(ai.kind, ty::AssocKind::Fn { .. }) {
                         let sig = tcx.fn_sig(ai.def_id).skip_binder().skip_binder();
